@@ -87,3 +87,48 @@ impl MmapAppend {
                 && final(w).map.len() == new_len && (forall|i: int| 0 <= i < old(w).map.len() ==> #[trigger] final(w).map[i] == old(w).map[i]),
     { unimplemented!() }
 }
+
+// ---- opening the file (std::fs, std::mem, mmap-append::new) ----
+pub struct OpenOptions { }
+pub struct Metadata { pub len: Ghost<int> }
+pub struct Path { }
+impl OpenOptions {
+    #[verifier::external_body] pub fn new() -> OpenOptions { unimplemented!() }
+    #[verifier::external_body] pub fn read(self, b: bool) -> OpenOptions { unimplemented!() }
+    #[verifier::external_body] pub fn write(self, b: bool) -> OpenOptions { unimplemented!() }
+    #[verifier::external_body] pub fn truncate(self, b: bool) -> OpenOptions { unimplemented!() }
+    #[verifier::external_body] pub fn create(self, b: bool) -> OpenOptions { unimplemented!() }
+    // opening (truncate(false)) does not change the file's length
+    #[verifier::external_body] pub fn open<P>(self, p: P) -> (r: Result<File, IoError>) { unimplemented!() }
+}
+impl File {
+    #[verifier::external_body]
+    pub fn metadata(&self, Tracked(w): Tracked<&World>) -> (r: Result<Metadata, IoError>)
+        ensures r is Ok ==> r->Ok_0.len@ == w.file_len
+    { unimplemented!() }
+}
+impl Metadata {
+    #[verifier::external_body]
+    pub fn len(&self) -> (r: u64) ensures r == self.len@ { unimplemented!() }
+}
+pub mod mem { use vstd::prelude::*; verus! {
+    #[verifier::external_body] pub fn size_of_usize() -> (r: usize) ensures r == 8 { unimplemented!() }
+} }
+impl MmapAppend {
+    // maps the whole file; with `initialize` it writes the end marker 8
+    #[verifier::external_body]
+    pub unsafe fn new(file: &File, initialize: bool, Tracked(w): Tracked<&mut World>) -> (r: Result<MmapAppend, IoError>)
+        ensures
+            final(w).committed == old(w).committed, final(w).events == old(w).events, final(w).file_len == old(w).file_len,
+            final(w).flc == old(w).flc,
+            r is Ok ==> final(w).map.len() == old(w).file_len && old(w).file_len >= 8 && old(w).file_len <= 0x7fff_ffff_0000_0000,
+            r is Ok && initialize ==> final(w).map_end == 8,
+    { unimplemented!() }
+}
+impl AtomicUsize {
+    #[verifier::external_body]
+    pub fn new(v: usize, Tracked(w): Tracked<&mut World>) -> (r: AtomicUsize)
+        ensures final(w).flc == v, final(w).committed == old(w).committed, final(w).map == old(w).map,
+            final(w).map_end == old(w).map_end, final(w).events == old(w).events, final(w).file_len == old(w).file_len,
+    { unimplemented!() }
+}
